@@ -60,7 +60,39 @@ class Engine:
         return self._cfg[qual]
 
     def symeval(self, qual: str, **kw) -> SymEval:
-        return SymEval(self.ce, self.repo.func(qual), **kw).run()
+        f = self.repo.func(qual)
+        if "frozen_fields" not in kw and f.cls:
+            kw["frozen_fields"] = self.init_only_fields(f"{f.module}.{f.cls}")
+        return SymEval(self.ce, f, **kw).run()
+
+    def init_only_fields(self, clsq: str) -> frozenset:
+        """Instance fields stored in the constructor and nowhere else in the class (their value cannot be changed by a
+        method call).  Empty for classes that store attributes under computed names (setattr with a non-constant name)."""
+        cache = self.__dict__.setdefault("_init_only", {})
+        if clsq in cache:
+            return cache[clsq]
+        mod, cls = clsq.split(".")
+        stored_init, stored_other, dynamic = set(), set(), False
+        for f in self.repo.methods(mod, cls):
+            selfname = f.params[0] if f.params and not f.is_static else None
+            for n in walk_no_nested(f.node):
+                attr = None
+                if isinstance(n, ast.Attribute) and isinstance(n.ctx, (ast.Store, ast.Del)) and isinstance(n.value, ast.Name) and n.value.id == selfname:
+                    attr = n.attr
+                elif isinstance(n, ast.Call) and norm(n.func) in ("setattr", "delattr", "super().__setattr__", "object.__setattr__") and n.args:
+                    a = n.args[1] if norm(n.func) in ("setattr", "delattr") and len(n.args) > 1 else n.args[0]
+                    if norm(n.func) == "object.__setattr__" and len(n.args) > 1:
+                        a = n.args[1]
+                    v = self.const_of(mod, a)
+                    if isinstance(v, str):
+                        attr = v
+                    else:
+                        dynamic = True
+                if attr:
+                    (stored_init if f.name == "__init__" else stored_other).add(attr)
+        res = frozenset() if dynamic else frozenset(stored_init - stored_other)
+        cache[clsq] = res
+        return res
 
     def const_of(self, mod: str, expr: ast.AST):
         """Fold an expression in the top-level environment of `mod` (Unknown if not foldable)."""
